@@ -6,7 +6,8 @@ import gen_bank as G
 ONE = G.ONE
 U64_MAX = G.U64_MAX
 OPN = {0: "clock", 1: "deposit", 2: "withdraw", 3: "borrow", 4: "repay", 7: "close_balance", 10: "accrue",
-       16: "collect_fees", 17: "liquidate", 18: "bankruptcy", 19: "set_price"}
+       16: "collect_fees", 17: "liquidate", 18: "bankruptcy", 19: "set_price",
+       20: "fixture_risk_admin", 21: "fixture_bank_flags"}
 HB_EXTRA = 13  # tokens after the 38 bankops tokens, before e-mode entries
 
 
@@ -257,8 +258,19 @@ def gen_case_scenario(rng, max_ops=26):
             ops.append([1, a, rng.randrange(nb), G.gen_amount(rng) % (1 << 61), rng.randrange(2)])
         elif r < 0.96:
             ops.append([2, 0, rng.randrange(nb), rng.choice([1, big // 2, big, big + 1]), 1 if rng.random() < 0.3 else 0])
-        elif r < 0.98:
+        elif r < 0.975:
             ops.append([7, a, rng.choice([c, d])])
+        elif r < 0.99:
+            # token-less write-off (sanctioned exception of C01): flag the debt bank, make the borrower's authority the
+            # group's risk admin (or not), then repay everything / a part
+            ops.append([21, d, banks[d][12] | 32])
+            if rng.random() < 0.8:
+                ops.append([20, a])
+            ops.append([4, a, d, rng.choice([1, bamt]), 1 if rng.random() < 0.8 else 0])
+            if rng.random() < 0.5:
+                ops.append([20, 255])
+            if rng.random() < 0.5:
+                ops.append([2, 0, d, rng.choice([1, big // 2, big]), rng.randrange(2)])
         else:
             # open a position, empty it with an exact partial withdrawal, let time pass, close the balance
             bx = rng.randrange(nb)
@@ -279,7 +291,7 @@ def gen_case_scenario(rng, max_ops=26):
 
 
 # ---------------------------------------------------------------------------------------------
-OPLEN = {0: 2, 1: 5, 2: 5, 3: 4, 4: 5, 7: 3, 10: 2, 16: 2, 17: 6, 18: 3, 19: 3}
+OPLEN = {0: 2, 1: 5, 2: 5, 3: 4, 4: 5, 7: 3, 10: 2, 16: 2, 17: 6, 18: 3, 19: 3, 20: 2, 21: 3}
 
 
 def parse_case(line):
